@@ -26,7 +26,21 @@ type corruptStore struct {
 	raft.LogStore
 	mu   sync.Mutex
 	over map[uint64]*raft.Log
+	// one-shot faults: the next StoreLogs / DeleteRange is rejected by the store (nothing is written or removed)
+	failStore, failDel bool
 }
+
+var errInjectedStore = errors.New("injected store fault")
+
+func (c *corruptStore) StoreLogs(logs []*raft.Log) error {
+	if c.failStore {
+		c.failStore = false
+		return errInjectedStore
+	}
+	return c.LogStore.StoreLogs(logs)
+}
+
+func (c *corruptStore) StoreLog(l *raft.Log) error { return c.StoreLogs([]*raft.Log{l}) }
 
 func (c *corruptStore) GetLog(idx uint64, out *raft.Log) error {
 	if err := c.LogStore.GetLog(idx, out); err != nil {
@@ -41,6 +55,10 @@ func (c *corruptStore) GetLog(idx uint64, out *raft.Log) error {
 }
 
 func (c *corruptStore) DeleteRange(min, max uint64) error {
+	if c.failDel {
+		c.failDel = false
+		return errInjectedStore
+	}
 	if err := c.LogStore.DeleteRange(min, max); err != nil {
 		return err
 	}
@@ -158,6 +176,34 @@ func (v *verImpl) exec(op string) (out string) {
 		return "err nonode"
 	}
 	switch ws[0] {
+	case "vstorefail":
+		// the store underneath rejects this batch
+		var logs []*raft.Log
+		for _, t := range ws[2:] {
+			logs = append(logs, parseLogTok(t))
+		}
+		n.cs.failStore = true
+		done := make(chan error, 1)
+		go func() { done <- n.ls.StoreLogs(logs) }()
+		var err error
+		select {
+		case err = <-done:
+		case <-time.After(10 * time.Second):
+			return "blocked"
+		}
+		n.cs.failStore = false
+		if err != nil {
+			return "err"
+		}
+		return "ok"
+	case "vdelfail":
+		n.cs.failDel = true
+		err := n.ls.DeleteRange(atoiU(ws[2]), atoiU(ws[3]))
+		n.cs.failDel = false
+		if err != nil {
+			return "err"
+		}
+		return "ok"
 	case "vstore":
 		var logs []*raft.Log
 		hasCP := false
@@ -319,9 +365,9 @@ func verMonitor(ops, impl []string) []Violation {
 	add := func(p, what, detail string, upto int) {
 		vs = append(vs, Violation{Property: p, What: what, Detail: detail, Ops: ops[:upto+1], Impl: impl[:upto+1]})
 	}
-	expect := map[string][]string{}            // "node/endIdx" -> FIFO of kinds
-	stored := map[string][]string{}            // "node/idx" -> token fields as passed to StoreLogs
-	corrupted := map[string]bool{}             // node -> at-rest corruption active
+	expect := map[string][]string{} // "node/endIdx" -> FIFO of kinds
+	stored := map[string][]string{} // "node/idx" -> token fields as passed to StoreLogs
+	corrupted := map[string]bool{}  // node -> at-rest corruption active
 	trig, rel := map[string]int{}, map[string]int{}
 	lastEnd := map[string]uint64{} // per node: end of the range of the last report the verifier goroutine received
 	lastVget := map[string]string{}
@@ -334,6 +380,12 @@ func verMonitor(ops, impl []string) []Violation {
 			continue
 		}
 		switch ws[0] {
+		case "vstorefail", "vdelfail":
+			if out == "blocked" {
+				add("C18", "the call did not complete", op, i)
+			} else if out != "err" && len(ws) > 2 {
+				add("C18", "the underlying store rejected the call but the middleware reported success", op+" -> "+out, i)
+			}
 		case "vstore":
 			if out == "blocked" {
 				add("C18", "StoreLogs did not complete while the report callback was blocked", op, i)
@@ -549,6 +601,19 @@ func leU64(b []byte) uint64 {
 
 func (g *vgen) storeOn(node uint64, logs []*raft.Log) bool {
 	var toks []string
+	if g.r.Chance(1, 8) {
+		// the store rejects the batch (nothing is written); a follower gets the same entries again, a leader either
+		// retries or gives up (the next batch then carries other entries for these indexes)
+		var ft []string
+		for _, l := range logs {
+			ft = append(ft, logTok(l))
+		}
+		g.do(fmt.Sprintf("vstorefail %d %s", node, strings.Join(ft, " ")))
+		g.tags["store-fault"] = true
+		if node == g.leader && g.r.Bool() {
+			return false
+		}
+	}
 	// hand-off simulation per checkpoint of the batch: one report may be running (pending) and one waiting
 	// (queued); a further one is dropped. Batches with more than one checkpoint are generated only for a node whose
 	// ReportFn is blocked (pending), where the outcome does not depend on how fast the verifier goroutine dequeues.
@@ -796,6 +861,10 @@ func (g *vgen) step() {
 		for n := uint64(0); n < g.nn; n++ {
 			if n != nl && g.last[n] > g.tLast {
 				if g.tLast+1 > g.first[n] {
+					if r.Chance(1, 3) {
+						g.do(fmt.Sprintf("vdelfail %d %d %d", n, g.tLast+1, g.last[n]))
+						g.tags["delete-fault"] = true
+					}
 					g.do(fmt.Sprintf("vdel %d %d %d", n, g.tLast+1, g.last[n]))
 					for i := range g.dirty[n] {
 						if i > g.tLast {
@@ -821,6 +890,10 @@ func (g *vgen) step() {
 		n := uint64(r.Intn(int(g.nn)))
 		if g.last[n] > g.first[n]+1 {
 			upto := g.first[n] + uint64(r.Intn(int(g.last[n]-g.first[n]-1)))
+			if r.Chance(1, 4) {
+				g.do(fmt.Sprintf("vdelfail %d %d %d", n, g.first[n], upto))
+				g.tags["delete-fault"] = true
+			}
 			g.do(fmt.Sprintf("vdel %d %d %d", n, g.first[n], upto))
 			for i := range g.dirty[n] {
 				if i <= upto {
